@@ -2,10 +2,31 @@ import os, sys
 sys.path.insert(0, os.path.join(os.path.dirname(__file__), '..', 'parser'))
 from common import *  # noqa
 
+P = 'C04'
+
 
 def plan(tier):
-    qs = []
-    qs.append(Query('probe', shape_defs(1, ['???'], 'C04'), ['parse succeeds', 'parse raises the user-input error'], unwind=2, est_gb=3, profile=profile_vins(['???']),
-                    sample={'decl': 1, 'tokens': ['???']}))
-    corpus = base_corpus('ALL')
-    return Runner('C04', tier, [parser_unit('parser', qs, corpus)])
+    th = tier == 'thorough'
+    qs = [
+        Q(P, 1, ['***', '***']),                       # every pair of tokens up to 3 bytes
+        Q(P, 1, ['*****']),                            # dash-heavy single tokens up to 5 bytes: ---x, --=x, -=, long bundles
+        Q(P, 3, ['***', '***']),                       # required options, greedy, unlimited positionals
+        Q(P, 2, ['***']),                              # reversible toggle, option with default, no positionals
+        Q(P, 2, ['--no-?'], wit=(W_OK, W_ERR)),        # --no-<any name>
+        Q(P, 2, ['--?', '--no-?']), Q(P, 2, ['--no-?', '-*']),
+        Q(P, 5, [], env={0: '***'}, wit=(W_OK,)),      # environment: option value is any string
+        Q(P, 5, [], env={1: '***'}, wit=(W_OK,)),      # multi-option value list
+        Q(P, 5, [], env={2: '***'}),                   # toggle word
+        Q(P, 7, ['***'], env={0: '**'}),               # required option: command line x environment
+    ]
+    if th:
+        qs += [Q(P, 1, ['***', '***', '***'], timeout=3000, est_gb=8), Q(P, 1, ['****', '****'], timeout=3000, est_gb=8),
+               Q(P, 3, ['***', '***', '**'], timeout=3000, est_gb=8), Q(P, 4, ['***', '***', '**'], timeout=3000, est_gb=8),
+               Q(P, 9, ['***', '***'], timeout=3000), Q(P, 12, ['***', '***']), Q(P, 10, ['****']), Q(P, 11, ['***', '***']),
+               Q(P, 6, ['***'], env={0: '**', 2: '**'}), Q(P, 8, [], env={0: '****'}), Q(P, 5, ['**'], env={0: '**', 1: '**', 2: '**'}),
+               Q(P, 2, ['--no-?', '--?', '**']), Q(P, 5, [], env={2: '*******'}, timeout=3000)]
+    if os.environ.get('EXPERIMENT'):
+        qs = [Q(P, 1, ['**', '**'], name='x22'), Q(P, 1, ['***', '*'], name='x31'), Q(P, 1, ['*', '***'], name='x13'), Q(P, 1, ['-*', '***'], name='xd13'), Q(P, 1, ['***', '-*'], name='x3d1'),
+              Q(P, 1, ['?', '?'], name='xs1s1'), Q(P, 1, ['-?', '?'], name='xdss')]
+    corpus = base_corpus(P)
+    return Runner(P, tier, [parser_unit('parser', qs, corpus)], bounds=BOUNDS_NOTE, outside=OUTSIDE, assumptions=ASSUME)
